@@ -957,6 +957,11 @@ func (x *Exec) writeScanner(st *State, fr *Frame, inLoop map[*ssa.BasicBlock]boo
 				}
 				return
 			}
+			if !conc && x.rootC != nil && (x.rootC.Opaque[relName(callee)] || x.rootC.Opaque[callee.Name()]) {
+				// declared opaque in the function under verification: its heap effect is what `havoc-on` names
+				// (applied when the call is executed), consistently with how the call itself is treated
+				return
+			}
 			if c := x.contractOf(callee); c != nil && !c.InlineAlways {
 				// effect given by its modifies clause: evaluated with receivers unknown -> whole keys
 				for _, it := range c.Modifies {
